@@ -270,7 +270,7 @@ def eq_conjunction(ctx, rep, rule):
     R = "jaqalpaq.core.register.Register"
     eq = _method(ix, R, "__eq__")
     cons = construct_of(eq, "walk-guard")
-    guards = [st for st in ast.walk(eq.node) if isinstance(st, ast.If) and ast.unparse(st.test).count("isinstance") >= 2 and "Register" in ast.unparse(st.test)]
+    guards = [st for st in ast.walk(eq.node) if isinstance(st, ast.If) and ast.unparse(st.test).count("isinstance") >= 1 and "Register" in ast.unparse(st.test)]
     if not guards:
         rep.ok(rule, cons, "no two-sided isinstance guard", eq.loc())
     for g in guards:
@@ -358,6 +358,11 @@ def argument_order(ctx, rep, rule):
                 for j in range(i + 1, len(c.args)):
                     ni, nj = (names[i] or "").lstrip("_"), (names[j] or "").lstrip("_")
                     pi, pj = params[i].lstrip("_"), params[j].lstrip("_")
+                    # `subcircuit_memo` is named like the parameter `memo`
+                    if ni != pi and pj in ni.split("_") and pi not in ni.split("_"):
+                        ni = pj
+                    if nj != pj and pi in nj.split("_") and pj not in nj.split("_"):
+                        nj = pi
                     both = ni and nj and ni != nj and ni == pj and nj == pi
                     # one argument carries the name of the OTHER position's parameter and neither sits under its own name
                     one = ni != nj and ((ni == pj and nj != pj and ni != pi) or (nj == pi and ni != pi and nj != pj))
@@ -610,7 +615,7 @@ def range_validation_guard(ctx, rep, rule):
     not_sym = lambda e: isinstance(e, ast.UnaryOp) and isinstance(e.op, ast.Not) and "AnnotatedValue" in ast.unparse(e)
     if _positive_conjunct(t, not_none) and _positive_conjunct(t, not_sym):
         rep.ok(rule, cons, f"`{ast.unparse(t)[:80]}`", f"{ri.path}:{target.lineno}")
-    elif isinstance(t, ast.BoolOp) or isinstance(t, ast.UnaryOp):
+    elif isinstance(t, ast.BoolOp) or isinstance(t, ast.UnaryOp) or (_positive_conjunct(t, not_none) and "AnnotatedValue" not in ast.unparse(t)):
         rep.violation(rule, cons, f"`{ast.unparse(t)[:90]}`: the bounds of `map a q[1:9]` are not checked against a known size (the alias is accepted and fails when used), or a symbolic size is compared as a number", f"{ri.path}:{target.lineno}")
     else:
         rep.undecided(rule, cons, f"`{ast.unparse(t)[:80]}`", f"{ri.path}:{target.lineno}")
@@ -915,6 +920,8 @@ def count_integrality(ctx, rep, rule):
             rep.ok(rule, cons, f"`{ast.unparse(t)[:80]}` raises", f"{m.path}:{st.lineno}")
         elif isinstance(t, ast.BoolOp) and isinstance(t.op, ast.And):
             rep.violation(rule, cons, f"`{ast.unparse(t)[:90]}`: both conditions can never hold together, so `let n 2.5; loop n {{..}}` is accepted", f"{m.path}:{st.lineno}")
+        elif isinstance(t, ast.Call) and "isinstance" in ast.unparse(t):
+            rep.violation(rule, cons, f"`{ast.unparse(t)[:90]}` only refuses values that stay floats: `let n 2.5; loop n {{..}}`... is refused, but the comparison that catches a value as_integer() changed is gone", f"{m.path}:{st.lineno}")
         elif isinstance(t, ast.Compare):
             rep.violation(rule, cons, f"`{ast.unparse(t)[:90]}` lets a non-finite float count through (as_integer leaves inf and nan as they are, and they equal themselves or never do)", f"{m.path}:{st.lineno}")
         else:
@@ -1267,3 +1274,215 @@ def visited_field_used_raw(ctx, rep, rule, modules):
 EXTRA["C16"].append((lexer_token_positions, "C16.28"))
 EXTRA["C05"].append((visited_field_used_raw, "C05.17", ["jaqalpaq.core.algorithm.fill_in_let"]))
 EXTRA["C10"].append((visited_field_used_raw, "C10.18", ["jaqalpaq.core.algorithm.fill_in_let", "jaqalpaq.core.algorithm.fill_in_map", "jaqalpaq.core.algorithm.expand_macros", "jaqalpaq.core.algorithm.expand_subcircuits", "jaqalpaq.core.algorithm.unit_timing"]))
+
+
+# ---------------------------------------------------------------- fourth batch (sweep 5)
+
+def parallel_state_all_fields(ctx, rep, rule):
+    ix = ctx.ix
+    DS = "jaqalpaq.core.algorithm.walkers.DiscoverSubcircuits"
+    vb = _method(ix, DS, "visit_BlockStatement")
+    vg = _method(ix, DS, "visit_GateStatement")
+    rep.rule(rule, "the refusal of state changes between parallel branches looks at EVERY piece of state a gate can change (the open trace and the list of closed ones)", floor=1)
+    selfn = vg.params[0]
+    written = {t.attr for st in ast.walk(vg.node) if isinstance(st, ast.Assign) for t in st.targets if isinstance(t, ast.Attribute) and isinstance(t.value, ast.Name) and t.value.id == selfn}
+    written |= {n.func.value.attr for n in ast.walk(vg.node) if isinstance(n, ast.Call) and isinstance(n.func, ast.Attribute) and n.func.attr in ("append", "extend") and isinstance(n.func.value, ast.Attribute) and isinstance(n.func.value.value, ast.Name) and n.func.value.value.id == selfn}
+    read = {n.attr for n in ast.walk(vg.node) if isinstance(n, ast.Attribute) and isinstance(n.ctx, ast.Load) and isinstance(n.value, ast.Name) and n.value.id == selfn}
+    state = {a for a in written if a in read and a != "address"}
+    cons = construct_of(vb, "parallel-state-fields")
+    guards = [t for r in ast.walk(vb.node) if isinstance(r, ast.Raise) for t, taken in _enclosing_ifs(vb.node, r) if taken and any(f".{a}" in ast.unparse(t) for a in state) and any("parallel" in ast.unparse(t2) for t2, _ in _enclosing_ifs(vb.node, r))]
+    if not guards:
+        rep.undecided(rule, cons, "no state comparison guards the refusal", vb.loc())
+        return
+    seen = {a for a in state for g in guards if f".{a}" in ast.unparse(g)}
+    if seen == state:
+        rep.ok(rule, cons, f"compares {sorted(state)}", vb.loc())
+    else:
+        rep.violation(rule, cons, f"the refusal compares {sorted(seen)} only, not {sorted(state - seen)}: a branch that only {'opens a trace (prepare_all)' if 'current' in state - seen else 'closes one (measure_all)'} next to other branches passes, and acceptance depends on the order of the branches again", f"{vb.path}:{guards[0].lineno}")
+
+
+def discovery_more(ctx, rep, rule):
+    ix = ctx.ix
+    DS = "jaqalpaq.core.algorithm.walkers.DiscoverSubcircuits"
+    TV = "jaqalpaq.core.algorithm.walkers.TraceVisitor"
+    vb = _method(ix, DS, "visit_BlockStatement")
+    vg = _method(ix, DS, "visit_GateStatement")
+    dc = _method(ix, DS, "visit_Circuit")
+    tl = _method(ix, TV, "visit_LoopStatement")
+    rep.rule(rule, "discovery keeps both loop-body refusals, refuses a measure gate without an open trace, drops exactly the trace that is still open at the end; the walker skips a loop exactly when its count is <= 0 and reads only fields a Trace has", floor=5)
+    cons = construct_of(vb, "both-refusals")
+    n = sum(1 for r in ast.walk(vb.node) if isinstance(r, ast.Raise) and any("reps" in ast.unparse(t) for t, _ in _enclosing_ifs(vb.node, r)))
+    if n >= 2:
+        rep.ok(rule, cons, f"{n} refusals depend on the repetition count", vb.loc())
+    else:
+        rep.violation(rule, cons, f"only {n} refusal(s) depend on the repetition count: either a trace closed and reopened inside a repeated body, or one left open at its end, is accepted and yields the wrong number of readouts", vb.loc())
+    cons = construct_of(vg, "measure-needs-open-trace")
+    closing = [st for st in ast.walk(vg.node) if isinstance(st, ast.If) and "m_gate" in ast.unparse(st.test)]
+    if closing:
+        g = [i for b in closing[0].body for i in ast.walk(b) if isinstance(i, ast.If) and _none_test(i.test, "current") is False and any(isinstance(r, ast.Raise) for r in i.body)]
+        if g:
+            rep.ok(rule, cons, "`if self.current is None: raise`", f"{vg.path}:{g[0].lineno}")
+        else:
+            rep.violation(rule, cons, "a measure gate without an open trace is not refused: `measure_all` as the first statement fails with AttributeError on None instead of a JaqalError", f"{vg.path}:{closing[0].lineno}")
+    cons = construct_of(dc, "open-trace-dropped")
+    hit = False
+    for st in iter_stmts(dc.body):
+        if isinstance(st, ast.If) and ".end" in ast.unparse(st.test):
+            hit = True
+            e, neg = st.test, False
+            while isinstance(e, ast.UnaryOp) and isinstance(e.op, ast.Not):
+                neg, e = not neg, e.operand
+            open_ = isinstance(e, ast.Compare) and isinstance(e.ops[0], (ast.Is, ast.Eq)) and isinstance(e.comparators[0], ast.Constant) and e.comparators[0].value is None
+            open_ = open_ != neg
+            drops = lambda body: any(isinstance(r, ast.Return) and isinstance(r.value, ast.Subscript) and isinstance(r.value.slice, ast.Slice) and r.value.slice.upper is not None for r in body)
+            open_branch = st.body if open_ else st.orelse
+            if drops(open_branch):
+                rep.ok(rule, cons, "the last trace is dropped when it has no end", f"{dc.path}:{st.lineno}")
+            else:
+                rep.violation(rule, cons, f"`if {ast.unparse(st.test)}`: the last COMPLETE subcircuit is dropped (it never gets a readout) and an unfinished one is kept", f"{dc.path}:{st.lineno}")
+    if not hit:
+        rep.undecided(rule, cons, "no test of the last trace's end", dc.loc())
+    cons = construct_of(tl, "skip-when-no-iterations")
+    sk = [st for st in iter_stmts(tl.body) if isinstance(st, ast.If) and "iterations" in ast.unparse(st.test) and any(isinstance(s, ast.Return) for s in ast.walk(st))]
+    if not sk:
+        rep.undecided(rule, cons, "no zero-count branch", tl.loc())
+    for st in sk:
+        t = st.test
+        ok = isinstance(t, ast.Compare) and len(t.ops) == 1 and ((isinstance(t.ops[0], ast.LtE) and isinstance(t.comparators[0], ast.Constant) and t.comparators[0].value == 0) or (isinstance(t.ops[0], ast.Lt) and isinstance(t.comparators[0], ast.Constant) and t.comparators[0].value == 1))
+        if ok:
+            rep.ok(rule, cons, f"`if {ast.unparse(t)}` skips", f"{tl.path}:{st.lineno}")
+        elif isinstance(t, ast.UnaryOp):
+            rep.violation(rule, cons, f"`if {ast.unparse(t)}`: loops that DO run are skipped (their subcircuits get no readouts) and loops with a count <= 0 are walked", f"{tl.path}:{st.lineno}")
+        else:
+            rep.undecided(rule, cons, f"`{ast.unparse(t)}` (strictness is decided by C08.4)", f"{tl.path}:{st.lineno}")
+    # fields of Trace
+    T_ = "jaqalpaq.core.algorithm.walkers.Trace"
+    fields = set(ix.init_fields(T_)) if T_ in ix.classes else set()
+    fields |= {f.lstrip("_") for f in fields}
+    cons = f"core.algorithm.walkers:TraceVisitor:trace-fields"
+    bad = None
+    nread = 0
+    for m in ix.classes[TV].methods.values():
+        for a in ast.walk(m.node):
+            if isinstance(a, ast.Attribute) and isinstance(a.value, ast.Subscript) and isinstance(a.value.value, ast.Attribute) and a.value.value.attr == "traces":
+                nread += 1
+                if fields and a.attr not in fields:
+                    bad = (m, a)
+    if bad:
+        rep.violation(rule, cons, f"`{ast.unparse(bad[1])}`: a Trace has {sorted(f for f in fields if not f.startswith('_'))}; the read fails with AttributeError as soon as a second trace is looked at", f"{bad[0].path}:{bad[1].lineno}")
+    elif nread:
+        rep.ok(rule, cons, f"{nread} reads of trace fields, all declared", ix.classes[TV].loc())
+
+
+def small_polarities(ctx, rep, rule):
+    """Polarity of tests that earlier rules recognise by their operands."""
+    ix = ctx.ix
+    rep.rule(rule, "polarity and completeness of small guards: the made-up marker is True; the relinker's macro branch is the one taken for macros; contains_subcircuit answers `is a subcircuit or contains one` with False as default; int() of a chained constant recurses for constants; every isnan() is applied to a float; stretched_gates skips what it HAS generated and renames while the name IS taken; the total error is |total - 1|; an injected gate wins over an imported one of the same name", floor=6)
+    # made_up marker value
+    gd = _method(ix, "jaqalpaq.core.circuitbuilder.Builder", "get_gate_definition")
+    for a in ast.walk(gd.node):
+        if isinstance(a, ast.Assign) and any(isinstance(t, ast.Attribute) and t.attr == "made_up" for t in a.targets):
+            cons = construct_of(gd, "marker-value")
+            if isinstance(a.value, ast.Constant) and a.value.value is True:
+                rep.ok(rule, cons, "made_up = True", f"{gd.path}:{a.lineno}")
+            else:
+                rep.violation(rule, cons, f"`{ast.unparse(a)}`: the marker never marks, so unknown gates in pre-built statements are accepted again", f"{gd.path}:{a.lineno}")
+    # relinker macro branch polarity
+    vg = _method(ix, "jaqalpaq.core.circuitbuilder.RebuildMacroInContextVisitor", "visit_GateStatement")
+    for st in iter_stmts(vg.body):
+        if isinstance(st, ast.If) and "isinstance" in ast.unparse(st.test) and "Macro" in ast.unparse(st.test):
+            cons = construct_of(vg, "macro-branch")
+            neg = isinstance(st.test, ast.UnaryOp)
+            macro_branch = st.orelse if neg else st.body
+            uses_eq = any(isinstance(c, ast.Compare) and isinstance(c.ops[0], ast.Eq) and ".gate_def" in ast.unparse(c) for b in macro_branch for c in ast.walk(b))
+            uses_is = any(isinstance(c, ast.Compare) and isinstance(c.ops[0], ast.Is) and ".gate_def" in ast.unparse(c) for b in macro_branch for c in ast.walk(b))
+            if uses_is and not uses_eq:
+                rep.violation(rule, cons, f"`if {ast.unparse(st.test)}`: native definitions are compared by equality (a made-up prepare_all equals the busy one and stays) and macros by identity", f"{vg.path}:{st.lineno}")
+            else:
+                rep.ok(rule, cons, "macros in the macro branch", f"{vg.path}:{st.lineno}")
+    # contains_subcircuit
+    cs = ix.functions.get("jaqalpaq.core.circuitbuilder.contains_subcircuit")
+    if cs is not None:
+        cons = construct_of(cs, "answer")
+        blk = [st for st in iter_stmts(cs.body) if isinstance(st, ast.If) and "BlockStatement" in ast.unparse(st.test)]
+        ok = False
+        why = "no branch for blocks"
+        if blk:
+            rets = [r for r in ast.walk(blk[0]) if isinstance(r, ast.Return)]
+            v = rets[0].value if rets else None
+            if isinstance(v, ast.BoolOp) and isinstance(v.op, ast.Or) and any(isinstance(x, ast.Attribute) and x.attr == "subcircuit" for x in v.values) and any(isinstance(x, ast.Call) and isinstance(x.func, ast.Name) and x.func.id == "any" for x in v.values):
+                ok = True
+            else:
+                why = f"`{ast.unparse(v)[:70] if v is not None else ''}` is not `obj.subcircuit or any(...)`"
+        last = cs.body[-1]
+        default_false = isinstance(last, ast.Return) and isinstance(last.value, ast.Constant) and last.value.value is False
+        positive = all(isinstance(st.test, ast.Call) for st in iter_stmts(cs.body) if isinstance(st, ast.If) and "isinstance" in ast.unparse(st.test))
+        if ok and default_false and positive:
+            rep.ok(rule, cons, "block: is one or contains one; default False", cs.loc())
+        else:
+            rep.violation(rule, cons, (why if not ok else "the default answer is not False" if not default_false else "a type test is negated") + ": calls of macros that contain a subcircuit are accepted inside subcircuits or parallel blocks again (or every macro call there is refused)", cs.loc())
+    # Constant.__int__ polarity
+    ci = _method(ix, "jaqalpaq.core.constant.Constant", "__int__")
+    for st in ast.walk(ci.node):
+        if isinstance(st, ast.If) and "Constant" in ast.unparse(st.test) and "isinstance" in ast.unparse(st.test):
+            cons = construct_of(ci, "chain-polarity")
+            if isinstance(st.test, ast.Call):
+                rep.ok(rule, cons, f"`{ast.unparse(st.test)}`", f"{ci.path}:{st.lineno}")
+            else:
+                rep.violation(rule, cons, f"`{ast.unparse(st.test)}`: int() recurses on values that are not constants and refuses constants of constants", f"{ci.path}:{st.lineno}")
+    # isnan guarded
+    eq = _method(ix, "jaqalpaq.core.gate.GateStatement", "__eq__")
+    for c in ast.walk(eq.node):
+        if isinstance(c, ast.Call) and ast.unparse(c.func).endswith("isnan") and c.args and isinstance(c.args[0], ast.Name):
+            x = c.args[0].id
+            cons = construct_of(eq, f"isnan:{x}")
+            is_float = lambda e: isinstance(e, ast.Call) and isinstance(e.func, ast.Name) and e.func.id == "isinstance" and isinstance(e.args[0], ast.Name) and e.args[0].id == x and "float" in ast.unparse(e.args[1])
+            holders = [b for b in ast.walk(eq.node) if isinstance(b, ast.BoolOp) and isinstance(b.op, ast.And) and any(y is c for y in ast.walk(b))]
+            guarded = any(any(is_float(v) for v in b.values) for b in holders)
+            if guarded:
+                rep.ok(rule, cons, "after isinstance(.., float)", f"{eq.path}:{c.lineno}")
+            else:
+                rep.violation(rule, cons, f"`{ast.unparse(c)}` is applied to an argument that need not be a float: comparing `Rz q[0] nan` with `Rz q[0] t` (a let) or with a qubit argument raises TypeError instead of answering False", f"{eq.path}:{c.lineno}")
+    # stretched_gates
+    sg = _func(ix, "jaqalpaq.core.stretch.stretched_gates")
+    for st in ast.walk(sg.node):
+        if isinstance(st, ast.If) and any(isinstance(s, ast.Continue) for s in st.body) and "new_gates" in ast.unparse(st.test):
+            cons = construct_of(sg, "skip-polarity")
+            t = st.test
+            if isinstance(t, ast.Compare) and isinstance(t.ops[0], ast.In):
+                rep.ok(rule, cons, f"`if {ast.unparse(t)}: continue`", f"{sg.path}:{st.lineno}")
+            else:
+                rep.violation(rule, cons, f"`if {ast.unparse(t)}: continue` skips every gate that has NOT been generated yet: the result is empty", f"{sg.path}:{st.lineno}")
+        if isinstance(st, ast.While) and "stretch_name" in ast.unparse(st.test):
+            cons = construct_of(sg, "rename-polarity")
+            cmps = [c for c in ast.walk(st.test) if isinstance(c, ast.Compare)]
+            if cmps and all(isinstance(c.ops[0], ast.Eq) for c in cmps) and not isinstance(st.test, ast.UnaryOp):
+                rep.ok(rule, cons, f"`while {ast.unparse(st.test)[:60]}`", f"{sg.path}:{st.lineno}")
+            else:
+                rep.violation(rule, cons, f"`while {ast.unparse(st.test)[:70]}` renames while some OTHER parameter has another name (always, for a gate with parameters: the loop never ends) and keeps a taken name", f"{sg.path}:{st.lineno}")
+    # total error
+    pi = _method(ix, "jaqalpaq.core.result.ProbabilisticSubcircuit", "__init__")
+    te = [v for v in _local_defs(pi.node, "total_err") if not isinstance(v, ast.AugAssign)]
+    if te:
+        cons = construct_of(pi, "total-error")
+        subs = [b for b in ast.walk(te[0]) if isinstance(b, ast.BinOp) and isinstance(b.op, ast.Sub)]
+        if subs and any(isinstance(b.right, ast.Constant) and b.right.value == 1 or isinstance(b.left, ast.Constant) and b.left.value == 1 for b in subs):
+            rep.ok(rule, cons, f"`{ast.unparse(te[0])}`", f"{pi.path}:{te[0].lineno}")
+        else:
+            rep.violation(rule, cons, f"`total_err = {ast.unparse(te[0])}` is not the distance of the total from one: every exact distribution has `error` 1 and is refused (RuntimeError)", f"{pi.path}:{te[0].lineno}")
+    # injected over imported
+    ug = _method(ix, "jaqalpaq.core.usepulses.UsePulsesStatement", "update_gates")
+    for st in ast.walk(ug.node):
+        if isinstance(st, ast.If) and any(isinstance(s, ast.Continue) for s in st.body) and "inject_pulses" in ast.unparse(st.test):
+            cons = construct_of(ug, "injected-wins")
+            member = [c for c in ast.walk(st.test) if isinstance(c, ast.Compare) and isinstance(c.ops[0], (ast.In, ast.NotIn))]
+            if member and isinstance(member[0].ops[0], ast.In) and not isinstance(st.test, ast.UnaryOp):
+                rep.ok(rule, cons, f"`if {ast.unparse(st.test)}: continue`", f"{ug.path}:{st.lineno}")
+            else:
+                rep.violation(rule, cons, f"`if {ast.unparse(st.test)}: continue`: an imported gate replaces the injected one of the same name, and imported gates that were NOT injected are dropped", f"{ug.path}:{st.lineno}")
+
+
+EXTRA["C13"].append((parallel_state_all_fields, "C13.21"))
+EXTRA["C08"].append((discovery_more, "C08.14"))
+for _p, _r in (("C14", "C14.15"), ("C13", "C13.22"), ("C01", "C01.15"), ("C06", "C06.19"), ("C20", "C20.13"), ("C18", "C18.15"), ("C15", "C15.16")):
+    EXTRA.setdefault(_p, []).append((small_polarities, _r))
